@@ -66,6 +66,12 @@ def struct_char_arrays(rel, name):
         off += int(n)
     return out, off
 
+def has(rel, needle):
+    return needle in cdefs.strip_comments(cdefs.read(rel))
+
+def boolean(name, v):
+    return "Definition %s : bool := %s." % (name, "true" if v else "false")
+
 def nat(name, v):
     return "Definition %s : nat := %d." % (name, v)
 
@@ -109,6 +115,9 @@ def generate():
         L.append(nat("R_tar_%s_offset" % f, off))
         L.append(nat("R_tar_%s_size" % f, sz))
     L.append(nat("R_tar_header_size", total))
+    # shape switches: the model follows either form of the code
+    # gnutar: is the main header formatted (and the entry possibly refused) before the 'K'/'L' records are written?
+    L.append(boolean("GNUTAR_header_first", has(W + "gnutar.c", "archive_format_gnutar_header(a, mainbuff")))
     for rel, nm in ((W + "ustar.c", "ustar_template"), (W + "v7tar.c", "v7tar_template"), (W + "gnutar.c", "gnutar_template")):
         L.append(zlist(nm, template(rel)))
     return "\n".join(L) + "\n"
